@@ -17,7 +17,7 @@ TOLS = {"default": "default", "1e-3": 1e-3, "1e-12": 1e-12, "0": 0, "none": None
 BAD = {"str": "abc", "none": None, "list": [0, 1]}
 NUMERIC_PROFILES = ("frac", "vec", "fvec", "int-ndarray")
 OWNER = {"insert": "C04", "remove": "C05", "elevate": "C06", "reduce": "C06",
-         "knot_clean": "C14", "degree_clean": "C14", "clean": "C14"}
+         "knot_clean": "C14", "degree_clean": "C14", "clean": "C14", "apply-scale": None, "perturb": None}
 
 
 # --------------------------------------------------------------------------
@@ -85,7 +85,7 @@ def gen_plan(prop, seed, tier):
     if prop in ("C05", "C14") and rng.random() < 0.12:
         profile = "int-ndarray"      # integer-dtype array points: the fitted values must not be squeezed back into int64
     if prop in ("C04", "C06") and rng.random() < 0.25:
-        profile = rng.choice(["sim-full", "sim-minimal", "sim-bounded", "sim-nofloat", "int-ndarray"])
+        profile = rng.choice(["sim-full", "sim-minimal", "sim-bounded", "sim-nofloat", "sim-floatable", "int-ndarray"])
     if mode == "float" and profile == "vec":
         profile = "fvec"
     if profile.startswith("sim"):
@@ -118,6 +118,12 @@ def gen_plan(prop, seed, tier):
     cfg["offset"] = rng.choice(["1000000", "3000000", "-2500000"]) if (mode == "exact" and profile in ("frac", "vec") and rng.random() < 0.08) else None
     # control points handed in as row views of ONE parent array, in reversed row order
     cfg["viewpts"] = profile in ("vec", "fvec") and rng.random() < 0.15
+    if prop == "C06" and profile == "int-ndarray" and rng.random() < 0.6:
+        # a Bezier curve with large INTEGER control points that is exactly the elevation of a lower-degree curve
+        # (coordinates are multiples of the degree, so the elevated control points are integers again)
+        mode, rational = "exact", False
+        cfg["mode"], cfg["rational"], cfg["shadow"], cfg["bigden"] = "exact", False, False, False
+        cfg["reducible_int"] = True
     cfg["huge"] = prop == "C04" and mode == "exact" and profile in ("frac", "vec") and not rational and not cfg["shadow"] \
         and not cfg["bigden"] and rng.random() < 0.02
     if cfg["huge"]:
@@ -135,6 +141,12 @@ def gen_plan(prop, seed, tier):
     else:
         cfg["init"] = gen_curve_spec(rng, mode, rational, maxp, rng.randint(0, 3), "frac" if profile == "frac" else "vec",
                                      dyadic=cfg["shadow"], bigden=cfg["bigden"])
+    if cfg.get("reducible_int"):
+        pp = rng.randint(1, 3)
+        big = rng.choice([1, 7, 5000, 100000, 3000000])
+        low = [[pp * (big + rng.randint(-9, 9)) for _ in range(2)] for _ in range(pp)]     # degree pp-1, multiples of pp
+        ele = [low[0]] + [[(i * a + (pp - i) * b) // pp for a, b in zip(low[i - 1], low[i])] for i in range(1, pp)] + [low[-1]]
+        cfg["init"] = {"p": pp, "knots": ["-1", "2"], "mults": [pp + 1, pp + 1], "pts": [[M.enc(Fraction(x)) for x in pt] for pt in ele]}
     nops = rng.randint(3, 14 if tier == "thorough" else 9)
     weights = {
         "C04": [("insert", 10), ("elevate", 2), ("remove", 2), ("reduce", 1), ("clean", 1)],
@@ -143,6 +155,9 @@ def gen_plan(prop, seed, tier):
         "C14": [("insert", 5), ("elevate", 3), ("clean", 7), ("remove", 2), ("reduce", 1)],
     }[prop]
     kinds = [k for k, w in weights for _ in range(w)]
+    # unjudged history that changes the control points without touching the knot vector: the public apply() with a
+    # diagonal matrix, and the ctrlpoints setter with one point moved by 1e-6 (an "almost removable" configuration)
+    kinds += ["apply-scale"] + (["perturb", "perturb"] if prop == "C14" else ["perturb"])
     ops = []
     if cfg.get("huge"):
         kinds = ["insert"]
@@ -211,6 +226,8 @@ def gen_plan(prop, seed, tier):
             if faulty:
                 op["times"] = rng.choice([0, -1, 7, "bad:float", "bad:str", "bad:none"])
             ops.append(op)
+        elif k in ("apply-scale", "perturb"):
+            ops.append({"op": k, "t": t, "j": rng.randrange(16), "c": rng.choice(["2", "3", "1/2", "-1"])})
         else:
             which = rng.choice(["knot_clean", "knot_clean", "degree_clean", "clean", "clean"])
             ctol = rng.choice(["0", "0", "default", "default", "1e-12"])
@@ -463,7 +480,10 @@ class RefEngine:
                 ctx.count("slot_retired_inconsistent")
                 self.slots[t] = None
                 continue
-            res = getattr(self, "op_" + ("clean" if kind in ("knot_clean", "degree_clean", "clean") else kind))(ctx, op, t, curve, judged)
+            if kind in ("apply-scale", "perturb"):
+                res = self.op_history(ctx, op, t, curve)
+            else:
+                res = getattr(self, "op_" + ("clean" if kind in ("knot_clean", "degree_clean", "clean") else kind))(ctx, op, t, curve, judged)
             st = self.alpha(curve)
             if st is None:
                 # consistency of the three fields is C15's subject; here the slot is simply retired
@@ -542,6 +562,31 @@ class RefEngine:
             ctx.count("shadow_steps")
         except Exception:  # noqa
             self.shadow = None
+
+    def op_history(self, ctx, op, t, curve):
+        """Unjudged history: the curve's function changes, its knot vector does not."""
+        if not self.numeric or self.cfg["mode"] != "exact":
+            return "skip"
+        n = curve.npts
+        try:
+            if op["op"] == "apply-scale":
+                c = M.dec(op["c"])
+                matrix = [[(c if i == j else 0) for j in range(n)] for i in range(n)]
+                if curve.weights is not None:
+                    return "skip"
+                curve.apply(curve.knotvector, matrix)
+            else:
+                pts = list(curve.ctrlpoints)
+                j = op["j"] % n
+                eps = Fraction(1, 10 ** 6)
+                pts[j] = pts[j] + eps if not isinstance(pts[j], self.np.ndarray) else pts[j] + self.np.array([eps] + [0] * (len(pts[j]) - 1), dtype=object)
+                curve.ctrlpoints = pts
+        except Exception:  # noqa
+            return "raise:history"
+        self.last[t] = None
+        self.lossy[t] = True
+        self.shadow = None
+        return "ok"
 
     def op_twin(self, ctx):
         """Slot 1 := a differently refined representation of the same function (history for C14)."""
